@@ -1156,9 +1156,8 @@ def generate(repo):
             if not (isinstance(asg.value, ast.Call) and last_attr(asg.value.func) == 'interp1d' and len(asg.value.args) >= 2):
                 return None
             got = {'coords': tag_of(asg.value.args[0]), 'values': tag_of(asg.value.args[1])}
-            res.append(verdict(got, {'coords': (ax, 0), 'values': (ax, 1)}) if None not in got.values() else None)
-            if got['coords'] is not None and got['values'] is not None and got['coords'][0] != ax and got['values'][0] != ax:
-                res[-1] = False                                   # the other slice feeds this interpolator
+            # both arguments traced back to a slice member: right iff they are (coords, values) of THIS axis' slice
+            res.append(None if None in got.values() else got == {'coords': (ax, 0), 'values': (ax, 1)})
             ex = get_def(rd, f'RichData.exact_{ax}')
             (ret,) = find_returns(ex)
             res.append(isinstance(ret, ast.Call) and ast.unparse(ret.func) == f'self.interpf_{ax}'
@@ -1183,6 +1182,20 @@ def generate(repo):
         res.append(verdict(got2, {'axis0': 'Y', 'axis1': 'X'}) if None not in got2.values() else None)
         return None if any(r is None for r in res) else all(res)
     g.fact('exact2dBinds', 'prysm/_richdata.py:RichData.exact_xy', exact_2d)
+
+    # ---- propagation.focus / unfocus: the Q-pad in front of the FFT is fttools.pad2d(array=wavefunction, Q=Q) and its result is
+    #      what the shift / FFT chain consumes when Q != 1
+    def focus_pad():
+        res = []
+        for fname in ('focus', 'unfocus'):
+            fn = get_def(pr, fname)
+            calls = find_calls(fn, 'pad2d')
+            if len(calls) != 1:
+                return None
+            got = {k: ast.unparse(v) for k, v in bind_call(calls[0], get_def(ft, 'pad2d')).items()}
+            res.append(verdict(got, {'array': 'wavefunction', 'Q': 'Q'}))
+        return None if any(r is None for r in res) else all(res)
+    g.fact('focusPadBinds', 'prysm/propagation.py:focus,unfocus', focus_pad)
 
     return g.finish()
 
